@@ -94,6 +94,36 @@ func checkC07(c *Ctx) {
 	r.Analysed["sol_functions"] = len(sf.Funcs)
 	r.Analysed["sol_events"] = len(sf.Events)
 
+	// the gravity id handed to the digest functions is the configured parameter as stored: the contract was
+	// deployed with that very string
+	nGid := 0
+	for _, f := range sortedFuncs(c.LiveReach()) {
+		if p.L.IsGenerated(f.Pos()) || inPkg(f, "mhub2/types") {
+			continue
+		}
+		ana.Calls(f, func(site ssa.CallInstruction, d ana.CalleeDesc) {
+			if d.Name != "GetCheckpoint" || len(site.Common().Args) == 0 {
+				return
+			}
+			args := site.Common().Args
+			gid := args[len(args)-1]
+			l := p.Leaves(gid, ana.PVOpt{})
+			nGid++
+			lossy := lossyStep(p, gid, l)
+			arith := false
+			for op := range l.Ops {
+				if strings.HasPrefix(op, "binop:") || op == "index" {
+					arith = true
+				}
+			}
+			r.Check(lossy == "" && !arith, "C07.field-map", "gravity-id-source:"+fname(f), c.pos(site.(ssa.Instruction)), "the gravity id passed to the digest is the stored parameter, unchanged",
+				"the gravity id passed to GetCheckpoint is not the configured parameter as stored (it passes through "+lossy+"): for ids the step changes, every hub digest differs from the contract's")
+		})
+	}
+	if nGid == 0 {
+		r.Undecided("C07.field-map", "gravity-id-source", "-", "no call of GetCheckpoint found in the keeper")
+	}
+
 	var packFn *ssa.Function
 	for _, dg := range digests {
 		gf := p.Func("mhub2/types." + dg.goType + ".GetCheckpoint")
@@ -718,7 +748,8 @@ func lossyStep(p *ana.Prog, v ssa.Value, l *ana.Prov) string {
 		switch {
 		case strings.HasSuffix(op, "Hex2Bytes"), strings.HasSuffix(op, "FromHex"), strings.HasSuffix(op, "Hex2BytesFixed"):
 			return op
-		case strings.HasSuffix(op, "ToLower"), strings.HasSuffix(op, "ToUpper"), strings.HasSuffix(op, "TrimSpace"), strings.Contains(op, "TrimPrefix"), strings.Contains(op, "TrimLeft"):
+		case strings.HasSuffix(op, "ToLower"), strings.HasSuffix(op, "ToUpper"), strings.HasSuffix(op, "TrimSpace"), strings.Contains(op, "TrimPrefix"), strings.Contains(op, "TrimLeft"),
+			op == "TrimRight", op == "TrimSuffix", op == "Trim", op == "ReplaceAll", op == "Replace", op == "ToTitle", op == "ToValidUTF8":
 			return op
 		}
 	}
